@@ -974,6 +974,31 @@ pub struct ServerPool {'''),
         }""", new="""        if self.pool_settings.query_parser_enabled && self.pool_settings.plugins.is_some() {
             return true;
         }"""),
+    dict(id="c05-bind-not-inferred", prop="C05", file="src/client.rs", expect="C05-R8",
+         what="a Bind of a prepared statement is buffered without inferring its role (D47 again)",
+         old="""                        if let Some(parse_message) = self.parse_message_of_bound_statement(&message) {
+                            if let Ok(ast) = query_router.parse(&parse_message) {
+                                let earlier_statement_in_batch =
+                                    self.extended_protocol_data_buffer.iter().any(|data| {
+                                        matches!(
+                                            data,
+                                            ExtendedProtocolData::Parse { .. }
+                                                | ExtendedProtocolData::Bind { .. }
+                                        )
+                                    });
+                                let _ = query_router
+                                    .infer_for_batch(&ast, earlier_statement_in_batch);
+                            }
+                        }
+""",
+         new="""                        let _ = self.parse_message_of_bound_statement(&message);
+"""),
+    dict(id="c05-bind-inferred-from-the-bind-message", prop="C05", file="src/client.rs", expect="C05-R8",
+         what="the role at Bind time is inferred from the Bind message itself (no SQL in it) instead of the stored statement",
+         old="""                        if let Some(parse_message) = self.parse_message_of_bound_statement(&message) {
+                            if let Ok(ast) = query_router.parse(&parse_message) {""",
+         new="""                        if self.prepared_statements_enabled {
+                            if let Ok(ast) = query_router.parse(&message) {"""),
     # ------------------------------------------------------------------ C17
     dict(id="c17-shutdown-checked-in-transaction", prop="C17", file="src/client.rs", expect="C17-R1",
          what="the transaction loop also reacts to the shutdown broadcast",
